@@ -116,7 +116,7 @@ const SVGDX_ATTRS: &[&str] = &[
 const ODD_VALUES: &[&str] = &[
     "2mm", "abc", "a b", "1 x", "1,x", "x 1", "1 2mm", "t", "tl", "r:50%", "b:-3", "h", "v", "corner", "-0", "+1", ".", "1.", "e5", "1e", "1 2", "1,2", "1 2 3", "0", "-1", "0.5", "100%", "-50%",
     "#e0", "#e0|h", "#e0|V 3", "#e0@br", "#e0@t:30%", "^", "^|v 2", "#e0 #e1", "#self", "#self|h", "1e30", "-1e30", "1e-30", "1 1e39", "$k", "${k}", "{{$k * 2}}", "{{1e38 * 100}}",
-    "\u{e9}", "\u{1F600}", " ", "\t", "0 0", "0 0 0 0", "1 2 3 4", "50% 50%", "5 -5", "true", "false", "none", "auto", "M0 0", "0,0 1,1", "rotate(45)", "translate(1)", "scale(0)",
+    "\u{e9}", "\u{1F600}", " ", "\t", "$\u{e9}lan", "{{$\u{e9}lan + 1}}", "${gr\u{f6}\u{df}e}", "{{$\u{1F600} * 2}}", "$k\u{e9}", "{{#\u{e9}~w}}", "#\u{e9}|h", "{{\u{e9}(1)}}", "0 0", "0 0 0 0", "1 2 3 4", "50% 50%", "5 -5", "true", "false", "none", "auto", "M0 0", "0,0 1,1", "rotate(45)", "translate(1)", "scale(0)",
 ];
 
 const ATTR_HOSTS: &[&str] = &[
